@@ -17,8 +17,8 @@ frame from each line's time code, odd parity on every byte, PAC rows, basic char
               only at a space unless a single word is longer than 32
   re-read     one caption per input caption, the same words in the same order
   timecodes   non-negative, non-decreasing
-  visible     every caption but the first becomes visible (its EOC is transmitted) within three
-              frames of its start time  (the first cue is not pre-rolled by design of the writer)
+  visible     every caption becomes visible (its EOC is transmitted) within three frames of its start
+              time - the first one too, whenever there is room to transmit it before its start
 
 and `_format_timestamp` alone on every quarter frame of the first 70 seconds and around the
 minute / hour carries: the time code is the number of whole frames of non-drop-frame time.
@@ -42,6 +42,8 @@ LINES = [
     ["It's 100% \"fine\" (really) - yes/no; a+b=c # & @ <tag>"], ["  padded   inside  "],
     # a line longer than a row holding a long (but not over-long) word: rows break at spaces only
     ["the counterrevolutionaries' plan failed"], ["an incomprehensibilities-laden memo arrived", "uncharacteristically early today"],
+    # a hyphenated word where the row is full: the hyphen is not a place to break
+    ["aaaa bbbb cccc dddd eee example-text", "well-known twenty-first-century re-entry x-ray self-contained"],
     # long cues: three and four lines of 60-80 characters (five and more rows on the screen)
     ["the quick brown fox jumps over the lazy dog and keeps running through the field",
      "while the other animals watch from a safe distance and wonder what is going on",
@@ -111,7 +113,7 @@ def decode(doc):
                 elif w == C.CONTROL["EOC"]:
                     if displayed is not None and displayed["erased_at"] is None:
                         displayed["erased_at"] = t
-                    displayed = {"visible_at": t, "erased_at": None, "rows": dict(nondisplayed)}
+                    displayed = {"visible_at": t, "erased_at": None, "rows": dict(nondisplayed), "words_before": k}
                     shown.append(displayed)
                     nondisplayed, row = {}, None
                 elif w in C.special_characters() or w in C.extended_characters():
@@ -249,7 +251,9 @@ def explore(ctx, thorough):
                 bad["reread"].append(dict(case, cue=k + 1, rows=rows, required_words=want[:12]))
                 break
             # broken only at spaces: joining the rows of one input line with spaces gives the line back (modulo runs of blanks)
-            if k > 0 and abs(float(c["visible_at"]) - s) > 3 * float(FRAME) + 1:
+            # (the first cue as well, whenever there is room to transmit it before its start)
+            feasible = k > 0 or s - (c.get("words_before", 0) + 1) * float(FRAME) >= 0
+            if feasible and abs(float(c["visible_at"]) - s) > 3 * float(FRAME) + 1:
                 bad["visible"].append(dict(case, cue=k + 1, visible_at_us=float(c["visible_at"]), start_us=s,
                                            frames_off=round((float(c["visible_at"]) - s) / float(FRAME), 2)))
                 break
